@@ -200,6 +200,8 @@ pub fn run(run: &Run) {
             ("cancelling", |n| (0..n).map(|i| if n == 1 { 0.0 } else { i as f64 - (n as f64 - 1.0) / 2.0 }).collect()),
             ("cancelling-3", |n| (0..n).map(|i| [1.5, -0.5, -1.0][i % 3] * if i >= n - n % 3 { 0.0 } else { 1.0 }).collect()),
             ("constant", |n| vec![2.5; n]),
+            ("repeats", |n| (0..n).map(|i| [2.0, 2.0, 5.0, 5.0, 7.0, 5.0, 7.0, 2.0][i % 8]).collect()),
+            ("repeats-2", |n| (0..n).map(|i| [3.0, 3.0, 3.0, -1.0, 4.0, -1.0, 4.0, 3.0, 0.0, -0.0][i % 10]).collect()),
             ("ones", |n| vec![1.0; n]),
             ("zeros", |n| vec![0.0; n]),
         ];
